@@ -22,6 +22,9 @@ def check(chk, fx):
         "nonterminals and columns are never confused. Each is a necessary condition: violating it loses or invents "
         "items or lookaheads for some grammar the test-suite does not contain.")
     lr.all_table_rules(chk, fx)
+    # a rule's symbols are resolved by name / id: a wrong resolution builds the table for another grammar
+    from . import c17
+    c17.symbol_lookup(chk, fx)
     tix.report(chk, fx)
     idxrule.report(chk, fx, lambda q: q.startswith(P + "state_analyzer") or q.startswith(P + "analyze_") or
                    q.startswith(P + "make_symbol") or q.startswith(P + "make_nterm_rule_slices") or
